@@ -24,7 +24,7 @@ func literalOfType(t *rapid.T, ty cty.Type) ast.Node {
 		return ast.Null{}
 	}
 	str := func() ast.Node {
-		s := cty.StringVal(rapid.SampledFrom([]string{"a", "b", "x y", "invalid", "", "é", "${x}", "5", "true"}).Draw(t, "s")).AsString()
+		s := cty.StringVal(rapid.SampledFrom([]string{"a", "b", "x y", "invalid", "", "é", "${x}", "5", "true", "%{x}", "100%", "%%{a}", "$${b}", "%{ if x }", "a${", "~}"}).Draw(t, "s")).AsString()
 		if s == "" {
 			return ast.Template{}
 		}
